@@ -19,6 +19,7 @@ import (
 	pbbstream "github.com/streamingfast/bstream/pb/sf/bstream/v1"
 	"github.com/streamingfast/dstore"
 	"go.uber.org/zap"
+	"google.golang.org/protobuf/proto"
 	"google.golang.org/protobuf/types/known/anypb"
 )
 
@@ -49,7 +50,18 @@ type c06Obs struct {
 	Events  []fkEvent `json:"events"`
 	Err     int       `json:"err"`
 	ErrText string    `json:"err_text,omitempty"`
+	// W3: the first delivery whose block / handler object is not the stored one (Err is then 6; ErrRun keeps the class of
+	// the run's own final error)
+	ObjErr string `json:"obj_err,omitempty"`
+	ErrRun int    `json:"err_run,omitempty"`
 }
+
+// W3: what the preprocess function of the file source returns for a block (checked behind WrappedObject())
+func c06Token(blk *pbbstream.Block) string { return "pp:" + blk.Id + "@" + fmt.Sprint(blk.Number) }
+
+// W3: a reference whose id is not in the generated form (e.g. truncated to its last 16 characters) maps to the same number
+// under fkIDNum: it is reported instead of being identified with the stored block's id
+func c06RefExact(r bstream.BlockRef) bool { return r == nil || fkIDStr(fkIDNum(r.ID())) == r.ID() }
 
 func c06PB(b fkBlock) *pbbstream.Block {
 	p := fkPB(b)
@@ -75,6 +87,7 @@ type c06Step interface {
 	Step() bstream.StepType
 	Cursor() *bstream.Cursor
 	ReorgJunctionBlock() bstream.BlockRef
+	WrappedObject() interface{}
 }
 
 func c06Run(in *c06Input) (*c06Obs, bool) {
@@ -215,18 +228,43 @@ func c06Run(in *c06Input) (*c06Obs, bool) {
 
 	// 5. the file source
 	var got []fkEvent
+	withPre := in.KSel%2 == 1 // W3: half of the cases run with a preprocess function (the selector is drawn anyway)
 	h := bstream.HandlerFunc(func(blk *pbbstream.Block, obj interface{}) error {
 		so := obj.(c06Step)
 		c := so.Cursor()
-		ev := fkEvent{Step: int(so.Step()), Blk: fkFromPB(blk), CBlk: fkRefOf(c.Block), Head: fkRefOf(c.HeadBlock), Lib: fkRefOf(c.LIB)}
+		ev := fkEvent{Step: int(so.Step()), Blk: fkFromPB(blk), CBlk: fkCursorBlk(c, so.Step()), Head: fkRefOf(c.HeadBlock), Lib: fkRefOf(c.LIB), CStep: int(c.Step)}
 		if j := so.ReorgJunctionBlock(); j != nil && so.Step() == bstream.StepUndo {
 			r := fkRefOf(j)
 			ev.Junc = &r
+		}
+		// W3: the delivered block is the STORED block (merged file or one-block file), whole: id in full, payload, time;
+		// the object is the one the preprocess function made for that block; references are spelled in full
+		if obs.ObjErr == "" {
+			n := len(got)
+			stored, known := byID[fkIDNum(blk.Id)]
+			switch {
+			case !known || !proto.Equal(blk, c06PB(stored)):
+				obs.ObjErr = fmt.Sprintf("event %d (step %d): delivered block %s #%d is not the stored block (id in full, parent, lib, time, payload)", n, so.Step(), blk.Id, blk.Number)
+			case c.Step != so.Step():
+				obs.ObjErr = fmt.Sprintf("event %d: object step %d, cursor step %d", n, so.Step(), c.Step)
+			case !c06RefExact(c.Block) || !c06RefExact(c.HeadBlock) || !c06RefExact(c.LIB) || !c06RefExact(so.ReorgJunctionBlock()):
+				obs.ObjErr = fmt.Sprintf("event %d: a cursor / junction reference does not carry the full block id (%s)", n, c)
+			case withPre && so.Step() != bstream.StepUndo && so.WrappedObject() != interface{}(c06Token(blk)):
+				obs.ObjErr = fmt.Sprintf("event %d (step %d, block #%d): wrapped object %v is not the preprocessed object of the block", n, so.Step(), blk.Number, so.WrappedObject())
+			case so.Step() == bstream.StepUndo && so.WrappedObject() != nil && so.WrappedObject() != interface{}(c06Token(blk)):
+				// an Undo built from a one-block file carries no preprocessed object (a downstream bstream.Preprocessor fills it)
+				obs.ObjErr = fmt.Sprintf("event %d (undo, block #%d): wrapped object %v belongs to another block", n, blk.Number, so.WrappedObject())
+			}
 		}
 		got = append(got, ev)
 		return nil
 	})
 	opts := []bstream.FileSourceOption{bstream.FileSourceWithBundleSize(in.Bundle), bstream.FileSourceWithStopBlock(stop)}
+	if withPre {
+		opts = append(opts, bstream.FileSourceWithConcurrentPreprocess(func(blk *pbbstream.Block) (interface{}, error) {
+			return c06Token(blk), nil
+		}, 1+in.SSel%3))
+	}
 	var src *bstream.FileSource
 	if in.Pass {
 		lo := e.Lib.Num
@@ -294,6 +332,10 @@ func c06Run(in *c06Input) (*c06Obs, bool) {
 		if strings.Contains(obs.ErrText, "not implemented") {
 			obs.ErrText = "not implemented"
 		}
+	}
+	if obs.ObjErr != "" && obs.Err != 4 {
+		obs.ErrRun = obs.Err
+		obs.Err = 6 // no model outcome and no property clause accepts it: mismatch + property rejected, with this replay
 	}
 	return obs, true
 }
@@ -383,6 +425,9 @@ func c06Exec(raw json.RawMessage) (*Case, error) {
 	}
 	if len(in.Missing) > 0 {
 		cs.Class += "/missing"
+	}
+	if in.KSel%2 == 1 {
+		cs.Class += "/pre"
 	}
 	cs.Nontrivial = len(obs.Events) > 0 || obs.Err == 2
 	cs.Tags = []string{fmt.Sprintf("undos=%d events=%d", nundo, len(obs.Events))}
